@@ -304,6 +304,56 @@ func runC13(r *core.Run) {
 			}
 		}
 	}
+	// components that are exactly zero (and exactly the white's), alone and in combination
+	{
+		vals := []float32{0, -0.25, 0.001, 0.3, 1, 2}
+		var n int64
+		for _, w := range ws {
+			for _, a := range vals {
+				for _, b := range vals {
+					for _, c := range vals {
+						for _, in := range [][3]float32{{a, b, c}, {a * w[0], b * w[1], c * w[2]}} {
+							kind, msg, _, _ := c13XYZ(in, w)
+							n++
+							if kind != "" {
+								r.Violate("xyz", kind+"/exact-zero", msg, c13Case{Kind: kind, White: w, In: in})
+							}
+						}
+					}
+				}
+			}
+		}
+		r.AddEvals(n)
+		r.NTCount(n / 2)
+	}
+	// the same colour against different whites back to back (a "last conversion" memo keyed on the
+	// colour alone shows only here)
+	{
+		rg := core.NewRNG(r.Seed, "C13", "alternate")
+		var n int64
+		for i := 0; i < 3000; i++ {
+			in := [3]float32{float32(rg.Uniform(-0.2, 1.5)), float32(rg.Uniform(-0.2, 1.5)), float32(rg.Uniform(-0.2, 1.5))}
+			if i%5 == 0 {
+				in = ws[i%len(ws)]
+			}
+			for k := 0; k < 3; k++ {
+				w := ws[(i+k)%len(ws)]
+				kind, msg, _, _ := c13XYZ(in, w)
+				n++
+				if kind != "" {
+					r.Violate("xyz", kind+"/alternating-whites", msg+" (the same colour had just been converted against another white)", c13Case{Kind: kind, White: w, In: in})
+				}
+				lab, _ := c13ToLab(in, w)
+				l3 := [3]float32{lab.L, lab.A, lab.B}
+				w2 := ws[(i+k+1)%len(ws)]
+				if kind, msg, _ := c13Lab(l3, w2); kind != "" {
+					r.Violate("lab", kind+"/alternating-whites", msg, c13Case{Kind: "inverse", White: w2, In: l3})
+				}
+			}
+		}
+		r.AddEvals(n)
+		r.NTCount(n)
+	}
 	// seeded random XYZ
 	shards := 64
 	accs := make([]acc, shards)
